@@ -268,7 +268,12 @@ impl Ctx<'_> {
                     for alt in &alternatives {
                         let (Ok(va), Ok(vf)) = (eval(alt), &expected) else { continue };
                         let want = va == *vf;
-                        let alt_text = paren_text(alt, hidden);
+                        // the alternative grouping written with the parentheses it needs and no others (its top operator binds
+                        // tighter than `==`), so that both groupings stand in one flat expression
+                        let alt_text = match alt {
+                            X::Bin(op, a, b) => format!("{} {op} {}", paren_text(a, hidden), paren_text(b, hidden)),
+                            leaf => leaf_text(leaf, hidden),
+                        };
                         for text in [format!("{alt_text} == {flat}"), format!("{flat} == {alt_text}"), format!("{alt_text} != {flat}")] {
                             let want = if text.contains("!=") { !want } else { want };
                             self.rep.evaluations += 1;
